@@ -1000,6 +1000,22 @@ func (g *Gen) genProduct() (Op, bool) {
 			return Op{}, false
 		}
 		t := w.get(a)
+		if r.Intn(3) == 0 {
+			// several axes at once, up to all of them, against an operand of the same shape
+			b := pickB(sameShapeDt(t))
+			if b >= 0 {
+				pm := g.perm(t.Dims())
+				axes := pm[:1+r.Intn(t.Dims())]
+				if r.Intn(2) == 0 {
+					axes = pm
+				}
+				name := "TensorMul"
+				if r.Intn(3) == 0 {
+					name = "Contract"
+				}
+				return Op{Name: name, In: []int{a, b}, I: cloneInts(axes), J: cloneInts(axes), Out: g.newSlot()}, true
+			}
+		}
 		ax := r.Intn(t.Dims())
 		b := pickB(func(x *tensor.Dense) bool {
 			if x.Dtype() != t.Dtype() || x.Dims() < 1 {
